@@ -320,6 +320,9 @@ struct Case {
     s: usize,
     t: usize,
     origin: &'static str,
+    /// large graphs: only these fields go to the driver (the rest of the reference
+    /// algorithms is too slow there); no model comparison
+    only: Option<&'static [&'static str]>,
 }
 
 fn signature(g: &G, s: usize, t: usize, field: &str) -> String {
@@ -378,8 +381,12 @@ fn eval_cases(cx: &mut Ctx, exe: &std::path::Path, cases: &[Case], bound: Durati
     let mut lines = vec![];
     for (c, o) in cases.iter().zip(outs.iter()) {
         if let Some(o) = o {
-            let obs: Vec<String> = o.iter().map(|(k, v)| format!("{}={}", k, v)).collect();
-            lines.push(format!("run {} {} {}", c.g.text(), c.s, c.t));
+            let obs: Vec<String> = o.iter().filter(|(k, _)| c.only.map_or(true, |f| f.contains(&k.as_str()))).map(|(k, v)| format!("{}={}", k, v)).collect();
+            if c.only.is_none() {
+                lines.push(format!("run {} {} {}", c.g.text(), c.s, c.t));
+            } else {
+                lines.push("noop".to_string()); // answered `bad-op`; keeps two lines per case
+            }
             lines.push(format!("spec {} {} {} {}", c.g.text(), c.s, c.t, obs.join(" ")));
         }
     }
@@ -407,6 +414,18 @@ fn eval_cases(cx: &mut Ctx, exe: &std::path::Path, cases: &[Case], bound: Durati
         let body = format!("case {} {} {}\nimpl  {}\nmodel {}\nspec  {}", gt, c.s, c.t, obs_txt.join(" "), m, sp);
         if cx.rep.samples.len() < 3 && c.g.nontrivial() && c.g.n >= 4 {
             cx.rep.sample(json!({"graph": gt, "s": c.s, "t": c.t, "impl": obs_txt.join(" "), "spec": sp}));
+        }
+        if c.only.is_some() {
+            cx.rep.count("large_graph_rayon_paths");
+            if let Some(fields) = sp.strip_prefix("viol ") {
+                for f in fields.split(',') {
+                    let sig = signature(&c.g, c.s, c.t, f);
+                    cx.rep.spec_violation(&cx.known, &sig, &format!("`{}` answer violates its specification on a {}-node graph", f, c.g.n), &body);
+                }
+            } else if sp != "ok" && cx.first_break.is_none() {
+                cx.first_break = Some(body.clone());
+            }
+            continue;
         }
         if sp == "nocert" || sp == "bad-op" || m == "bad-op" {
             cx.rep.count("driver_no_certificate");
@@ -500,6 +519,51 @@ enum WKind {
     Float(u64),
     Missing,
     Text,
+}
+
+impl StoreDesc {
+    fn text(&self) -> String {
+        let ns: Vec<String> = self.nodes.iter().map(|l| l.to_string()).collect();
+        let es: Vec<String> = self
+            .edges
+            .iter()
+            .map(|(u, v, ty, w)| {
+                let k = match w {
+                    WKind::Int(x) => format!("i{}", x),
+                    WKind::Float(x) => format!("f{}", x),
+                    WKind::Missing => "m".into(),
+                    WKind::Text => "t".into(),
+                };
+                format!("{}.{}.{}.{}", u, v, ty, k)
+            })
+            .collect();
+        format!("{} {}", if ns.is_empty() { "-".into() } else { ns.join(",") }, if es.is_empty() { "-".into() } else { es.join(",") })
+    }
+    fn parse(ns: &str, es: &str) -> Option<StoreDesc> {
+        let nodes: Vec<u8> = if ns == "-" { vec![] } else { ns.split(',').map(|x| x.parse().ok()).collect::<Option<Vec<u8>>>()? };
+        let mut edges = vec![];
+        if es != "-" {
+            for e in es.split(',') {
+                let f: Vec<&str> = e.split('.').collect();
+                if f.len() != 4 {
+                    return None;
+                }
+                let (u, v, ty): (usize, usize, u8) = (f[0].parse().ok()?, f[1].parse().ok()?, f[2].parse().ok()?);
+                if u >= nodes.len() || v >= nodes.len() {
+                    return None;
+                }
+                let w = match f[3].split_at(1) {
+                    ("i", x) => WKind::Int(x.parse().ok()?),
+                    ("f", x) => WKind::Float(x.parse().ok()?),
+                    ("m", "") => WKind::Missing,
+                    ("t", "") => WKind::Text,
+                    _ => return None,
+                };
+                edges.push((u, v, ty, w));
+            }
+        }
+        Some(StoreDesc { nodes, edges })
+    }
 }
 
 fn build_store(d: &StoreDesc) -> (GraphStore, Vec<u64>) {
@@ -607,9 +671,12 @@ fn rec_float(r: &samyama::query::executor::record::Record, col: &str) -> Option<
     r.get(col)?.as_property()?.as_float()
 }
 
-fn eval_store(cx: &mut Ctx, drv: &mut driver::Driver, d: &StoreDesc, rng: &mut Rng) {
+fn eval_store(cx: &mut Ctx, drv: &mut driver::Driver, d: &StoreDesc) {
     let (store, ids) = build_store(d);
-    let desc_txt = format!("{:?}", d);
+    let desc_txt = d.text();
+    // (source, target) derive from the store itself, so that a replay needs no seed
+    let mut rng = Rng::new(vharness::util::fnv(&desc_txt));
+    let rng = &mut rng;
     for (label, ty, weighted) in [(None, None, false), (None, None, true), (Some("A"), Some("R"), false), (Some("A"), None, true), (Some("B"), Some("S"), true)] {
         let v = samyama::algo::build_view(&store, label, ty, if weighted { Some("w") } else { None });
         // node set expected by the label filter
@@ -627,7 +694,7 @@ fn eval_store(cx: &mut Ctx, drv: &mut driver::Driver, d: &StoreDesc, rng: &mut R
         let stxt = store_text(d, &ids, &v.index_to_node);
         let lcode = match label { None => "_", Some("A") => "0", _ => "1" };
         let tcode = match ty { None => "_", Some("R") => "0", _ => "1" };
-        let body = format!("store {}\nproj {} {} {} {}", desc_txt, stxt, lcode, tcode, weighted as u8);
+        let body = format!("storecase {}\nproj {} {} {} {}", desc_txt, stxt, lcode, tcode, weighted as u8);
         cx.rep.count("projections");
         if got_nodes != want_nodes || v.node_count != want_nodes.len() {
             cx.rep.spec_violation(&cx.known, "projection-node-set", &format!("build_view selected nodes {:?}, the label filter selects {:?}", got_nodes, want_nodes), &body);
@@ -863,7 +930,7 @@ fn exhaustive(n: usize, len: usize, out: &mut Vec<Case>) {
             x /= a;
         }
         let st = code % (n * n);
-        out.push(Case { g: G { n, edges }, s: st / n, t: st % n, origin: "exhaustive" });
+        out.push(Case { g: G { n, edges }, s: st / n, t: st % n, origin: "exhaustive", only: None });
     }
 }
 
@@ -884,6 +951,7 @@ fn main() {
 
     // 1. corpus / replay
     let mut cases: Vec<Case> = vec![];
+    let mut store_cases: Vec<StoreDesc> = vec![];
     let mut files: Vec<std::path::PathBuf> = vec![];
     if let Some(r) = &args.replay {
         files.push(r.clone());
@@ -894,10 +962,15 @@ fn main() {
     for f in &files {
         for line in std::fs::read_to_string(f).unwrap_or_default().lines() {
             let tok: Vec<&str> = line.split_whitespace().collect();
+            if tok.len() == 3 && tok[0] == "storecase" {
+                if let Some(d) = StoreDesc::parse(tok[1], tok[2]) {
+                    store_cases.push(d);
+                }
+            }
             if tok.len() == 4 && tok[0] == "case" {
                 if let (Some(g), Ok(s), Ok(t)) = (G::parse(tok[1]), tok[2].parse::<usize>(), tok[3].parse::<usize>()) {
                     if g.n == 0 || (s < g.n && t < g.n) {
-                        cases.push(Case { g, s, t, origin: "corpus" });
+                        cases.push(Case { g, s, t, origin: "corpus", only: None });
                     }
                 }
             }
@@ -906,6 +979,12 @@ fn main() {
     cx.rep.count_n("corpus_cases", cases.len() as u64);
     eval_cases(&mut cx, &exe, &cases, bound);
     cases.clear();
+    if !store_cases.is_empty() {
+        let mut drv = driver::Driver::spawn(&exe);
+        for d in &store_cases {
+            eval_store(&mut cx, &mut drv, d);
+        }
+    }
 
     if args.replay.is_none() {
         // 2. exhaustive small scopes
@@ -944,11 +1023,31 @@ fn main() {
             let g = random_graph(&mut rng, if i % 10 == 0 { nmax } else { nmax / 2 });
             let s = rng.usize(g.n);
             let t = if rng.chance(1, 12) { s } else { rng.usize(g.n) };
-            cases.push(Case { g, s, t, origin: "random" });
+            cases.push(Case { g, s, t, origin: "random", only: None });
         }
         for chunk in cases.chunks(2_000) {
             eval_cases(&mut cx, &exe, chunk, bound);
         }
+        cases.clear();
+
+        // 3b. on both sides of n = 1000 (count_triangles / LCC switch to rayon there):
+        //     sparse graphs, triangle count, LCC and WCC only
+        let bigs: &[usize] = if args.thorough() { &[999, 1000, 1001, 1200] } else { &[999, 1000] };
+        for n in bigs {
+            let mut edges = vec![];
+            for _ in 0..(2 * n) {
+                let (u, v) = (rng.usize(*n), rng.usize(*n));
+                edges.push((u, v, 1 + rng.below(5)));
+                if rng.chance(1, 4) {
+                    // close a triangle now and then
+                    let w = rng.usize(*n);
+                    edges.push((v, w, 1));
+                    edges.push((w, u, 1));
+                }
+            }
+            cases.push(Case { g: G { n: *n, edges }, s: 0, t: 1, origin: "threshold", only: Some(&["tri", "lcc", "wcc"]) });
+        }
+        eval_cases(&mut cx, &exe, &cases, Duration::from_secs(60));
         cases.clear();
 
         // 4. stores through build_view and CALL algo.*
@@ -956,11 +1055,11 @@ fn main() {
         let n_store = if args.thorough() { 600 } else { 60 };
         for _ in 0..n_store {
             let d = random_store(&mut rng);
-            eval_store(&mut cx, &mut drv, &d, &mut rng);
+            eval_store(&mut cx, &mut drv, &d);
         }
         // the shape of the witness in the property text, through the whole stack
         let d = StoreDesc { nodes: vec![1, 1, 1], edges: vec![(1, 0, 0, WKind::Int(10)), (1, 0, 0, WKind::Int(1)), (1, 2, 0, WKind::Float(4))] };
-        eval_store(&mut cx, &mut drv, &d, &mut rng);
+        eval_store(&mut cx, &mut drv, &d);
     }
 
     if let Some(body) = cx.first_break.take() {
